@@ -1,7 +1,219 @@
-/- stub: overwritten by the builder of this engine -/
+/-
+Driver for E1/arena (C10).  One request = one whole history:
+  {"ops":[OP,…]}  →  {"steps":[{"res":R,"state":[HANDLE-STATE,…]},…]}
+Operands are *handles* (positions in the list of node references handed out so far); every
+operation that returns a node pushes a new handle (also `parent`, when it is not None).
+OP:  {"op":"mk","sym":SYM,"sender":s|null,"recipient":s|null,"kids":[h…],"ro":bool}
+     {"op":"addChild","p":h,"c":h} {"op":"setChildren","p":h,"cs":[h…]}
+     {"op":"setSym","i":h,"sym":SYM} {"op":"setSender","i":h,"s":s|null} {"op":"setRecipient",…}
+     {"op":"hash","i":h} {"op":"eq","i":h,"j":h} {"op":"classes"}
+     {"op":"deepcopy","i":h,"cc":bool,"cp":bool} {"op":"getItem","i":h,"k":int}
+     {"op":"getSlice","i":h,"a":int|null,"b":int|null} {"op":"splitEnd","i":h,"copy":bool}
+     {"op":"prefix","i":h,"copy":bool} {"op":"replace","i":h,"reps":[[h,h]…]}
+     {"op":"append","i":h,"path":[[name,bool]…],"t":h}
+     {"op":"size"|"parent"|"getPath"|"flatten"|"choicesPath"|"value","i":h}
+     {"op":"findAll"|"findDirect","i":h,"name":s}
+SYM: ["n",name] | ["t",[cps]] | ["b",[bytes]] | ["i",0|1] | ["s"]
+T: [SYM, sender|null, recipient|null, [T…]]
+HANDLE-STATE: {"size":n,"tree":T|"cycle","parent":null|[h…] (handles naming the parent; [] = a node
+     without handle),"cached":bool,"ro":bool,"same":[h…]}
+The hash values of the model are canonical strings (an injective `Hc`), so `eq`/`classes` are exact
+structural comparisons of what the caches currently hold.
+-/
 import Driver.Common
+import Model.ArenaStep
 open Lean FV FV.Drv
 
-def handle (_ : Json) : Except String Json := throw "driver not implemented"
+abbrev HV := String
+
+def symStr : Sym → String
+  | .nt n => "N" ++ toString n.length ++ ":" ++ n
+  | .term (.text s) => "T" ++ toString s
+  | .term (.bytes b) => "B" ++ toString (b.map (·.val))
+  | .term (.bit b) => if b then "I1" else "I0"
+  | .slice => "S"
+
+def optS : Option String → String
+  | none => "-"
+  | some s => "+" ++ toString s.length ++ ":" ++ s
+
+/-- injective combiner (length-prefixed fields) -/
+def HcS (s : Sym) (a r : Option String) (hs : List HV) : HV :=
+  "(" ++ symStr s ++ "|" ++ optS a ++ "|" ++ optS r ++ "|" ++ toString hs.length ++ "[" ++ String.join hs ++ "])"
+
+def symOfJson (j : Json) : Except String Sym := do
+  let a ← j.getArr?
+  let tag ← (a[0]?.getD Json.null).getStr?
+  match tag with
+  | "n" => return .nt (← (a[1]?.getD Json.null).getStr?)
+  | "s" => return .slice
+  | _ => return .term (← leafOf tag (a[1]?.getD Json.null))
+
+structure DState where
+  σ : Store HV
+  hs : Array Nat
+
+def fuelOf (σ : Store HV) : Nat := 2 * σ.length + 8
+
+def hGet (d : DState) (j : Json) (k : String) : Except String Nat := do
+  let h ← j.getObjValAs? Nat k
+  match d.hs[h]? with
+  | some n => return n
+  | none => throw s!"unknown handle {h}"
+
+def hList (d : DState) (j : Json) : Except String (List Nat) := do
+  let a ← j.getArr?
+  a.toList.mapM (fun x => do
+    let h ← x.getNat?
+    match d.hs[h]? with
+    | some n => pure n
+    | none => throw s!"unknown handle {h}")
+
+def optInt (j : Json) (k : String) : Except String (Option Int) :=
+  match j.getObjVal? k with
+  | .error _ => throw s!"missing {k}"
+  | .ok Json.null => return none
+  | .ok v => return some (← v.getInt?)
+
+def optStrField (j : Json) (k : String) : Except String (Option String) :=
+  match j.getObjVal? k with
+  | .error _ => throw s!"missing {k}"
+  | .ok Json.null => return none
+  | .ok v => return some (← v.getStr?)
+
+def opOfJson (d : DState) (j : Json) : Except String Op := do
+  let op ← j.getObjValAs? String "op"
+  match op with
+  | "mk" =>
+    return .mk (← symOfJson (← j.getObjVal? "sym")) (← optStrField j "sender") (← optStrField j "recipient")
+      (← hList d (← j.getObjVal? "kids")) (← j.getObjValAs? Bool "ro")
+  | "addChild" => return .addChild (← hGet d j "p") (← hGet d j "c")
+  | "setChildren" => return .setChildren (← hGet d j "p") (← hList d (← j.getObjVal? "cs"))
+  | "setSym" => return .setSym (← hGet d j "i") (← symOfJson (← j.getObjVal? "sym"))
+  | "setSender" => return .setSender (← hGet d j "i") (← optStrField j "s")
+  | "setRecipient" => return .setRecipient (← hGet d j "i") (← optStrField j "s")
+  | "hash" => return .hash (← hGet d j "i")
+  | "eq" => return .eq (← hGet d j "i") (← hGet d j "j")
+  | "deepcopy" => return .deepcopy (← hGet d j "i") (← j.getObjValAs? Bool "cc") (← j.getObjValAs? Bool "cp")
+  | "getItem" => return .getItem (← hGet d j "i") (← (← j.getObjVal? "k").getInt?)
+  | "getSlice" => return .getSlice (← hGet d j "i") (← optInt j "a") (← optInt j "b")
+  | "splitEnd" => return .splitEnd (← hGet d j "i") (← j.getObjValAs? Bool "copy")
+  | "prefix" => return .prefix (← hGet d j "i") (← j.getObjValAs? Bool "copy")
+  | "replace" =>
+    let a ← (← j.getObjVal? "reps").getArr?
+    let reps ← a.toList.mapM (fun x => do
+      let l ← hList d x
+      match l with
+      | [u, v] => pure (u, v)
+      | _ => throw "bad replacement pair")
+    return .replace (← hGet d j "i") reps
+  | "append" =>
+    let a ← (← j.getObjVal? "path").getArr?
+    let path ← a.toList.mapM (fun x => do
+      let p ← x.getArr?
+      let n ← (p[0]?.getD Json.null).getStr?
+      let b ← (p[1]?.getD Json.null).getBool?
+      pure (n, b))
+    return .append (← hGet d j "i") path (← hGet d j "t")
+  | "size" => return .size (← hGet d j "i")
+  | "parent" => return .parent (← hGet d j "i")
+  | "getPath" => return .getPath (← hGet d j "i")
+  | "flatten" => return .flatten (← hGet d j "i")
+  | "choicesPath" => return .choicesPath (← hGet d j "i")
+  | "value" => return .value (← hGet d j "i")
+  | "findAll" => return .findAll (← hGet d j "i") (← j.getObjValAs? String "name")
+  | "findDirect" => return .findDirect (← hGet d j "i") (← j.getObjValAs? String "name")
+  | _ => throw s!"unknown op {op}"
+
+def jAErr : AErr → Json
+  | .index => "IndexError" | .value => "ValueError" | .step => "StepException"
+  | .assertion => "AssertionError" | .recursion => "RecursionError" | .dangling => "dangling"
+
+def handlesOf (d : DState) (n : Nat) : Json :=
+  jNats ((List.range d.hs.size).filter (fun h => d.hs[h]? == some n))
+
+def jSym : Sym → Json
+  | .nt n => Json.arr #["n", Json.str n]
+  | .term (.text s) => Json.arr #["t", jNats s]
+  | .term (.bytes b) => Json.arr #["b", jBytes b]
+  | .term (.bit b) => Json.arr #["i", Json.num (if b then 1 else 0)]
+  | .slice => Json.arr #["s"]
+
+/-- full structure (children of terminal / slice nodes and their parties included) -/
+partial def jTreeA : Tree → Json
+  | .mk s a r ks => Json.arr #[jSym s, jOptStr a, jOptStr r, Json.arr (ks.map jTreeA).toArray]
+
+def jAbs (σ : Store HV) (n : Nat) : Json :=
+  match absF (fuelOf σ) σ n with
+  | some t => jTreeA t
+  | none => "cycle"
+
+def jNode (d : DState) (n : Nat) : Json := Json.arr #[jAbs d.σ n, handlesOf d n]
+
+def jState (d : DState) : Json :=
+  Json.arr ((List.range d.hs.size).map (fun h =>
+    match d.hs[h]? with
+    | none => Json.null
+    | some n =>
+      match d.σ[n]? with
+      | none => Json.null
+      | some r =>
+        Json.mkObj [("size", Json.num r.sizeC), ("tree", jAbs d.σ n),
+          ("parent", match r.parent with | none => Json.null | some p => handlesOf d p),
+          ("cached", Json.bool r.hashC.isSome), ("ro", Json.bool r.readOnly),
+          ("same", handlesOf d n)])).toArray
+
+def jRes (d : DState) : Res HV → Json
+  | .unit => Json.null
+  | .node n => Json.mkObj [("node", handlesOf d n)]
+  | .optNode none => Json.mkObj [("node", Json.null)]
+  | .optNode (some n) => Json.mkObj [("node", handlesOf d n)]
+  | .nodes l => Json.mkObj [("nodes", Json.arr (l.map (jNode d)).toArray)]
+  | .nat n => Json.mkObj [("nat", Json.num n)]
+  | .hashv _ => Json.mkObj [("hash", true)]
+  | .bool b => Json.mkObj [("bool", b)]
+  | .path p => Json.mkObj [("path", jNats p)]
+  | .val none => Json.mkObj [("value", "cycle")]
+  | .val (some (.ok _)) => Json.mkObj [("value", "ok")]
+  | .val (some (.error e)) => Json.mkObj [("value", jErr e)]
+  | .err e => Json.mkObj [("raises", jAErr e)]
+
+/-- `classes`: hash every handle in order (fills the caches), group by hash value -/
+def classes (d : DState) : Except String (DState × Json) := do
+  let mut σ := d.σ
+  let mut vals : Array HV := #[]
+  for n in d.hs do
+    match hashNode HcS (fuelOf σ) σ n with
+    | .error e => throw s!"classes: {(jAErr e).compress}"
+    | .ok (σ', h) =>
+      σ := σ'
+      vals := vals.push h
+  let cls := (List.range vals.size).map (fun i =>
+    ((List.range vals.size).find? (fun k => vals[k]? == vals[i]?)).getD i)
+  return ({ d with σ := σ }, Json.mkObj [("classes", jNats cls)])
+
+def doOp (d : DState) (j : Json) : Except String (DState × Json) := do
+  let name ← j.getObjValAs? String "op"
+  if name == "classes" then
+    let (d', r) ← classes d
+    return (d', Json.mkObj [("res", r), ("state", jState d')])
+  let op ← opOfJson d j
+  let (σ', res) := step HcS (fuelOf d.σ) d.σ op
+  let hs' := match res with
+    | .node n => d.hs.push n
+    | .optNode (some n) => d.hs.push n
+    | _ => d.hs
+  let d' : DState := { σ := σ', hs := hs' }
+  return (d', Json.mkObj [("res", jRes d' res), ("state", jState d')])
+
+def handle (j : Json) : Except String Json := do
+  let ops ← (← j.getObjVal? "ops").getArr?
+  let mut d : DState := { σ := [], hs := #[] }
+  let mut out : Array Json := #[]
+  for o in ops do
+    let (d', r) ← doOp d o
+    d := d'
+    out := out.push r
+  return Json.mkObj [("steps", Json.arr out), ("nodes", Json.num d.σ.length)]
 
 def main : IO Unit := run handle
